@@ -120,7 +120,33 @@ def cursor_check(prop, tier, seed):
     return K.report(prop, results, gens, tier, seed, t0, ASSUME_CURSORS)
 
 
+ASSUME_THREADS = [
+    "TLC and the CommunityModules JSON reader are correct",
+    "the concurrent harness (vh-threads) logs every atomic operation of the crate with the ordering that was passed (patched portable-atomic shim), every allocator event and every harness-level buffer access, in execution order (one model thread runs at a time)",
+    "executions are sequentially consistent runs on this machine; weak-memory outcomes (stale relaxed loads) are covered by the design model spec/Atomics.tla instantiated with the orderings extracted from these traces, not by execution",
+    "std's Arc used to share one &Bytes between model threads is modelled as one AcqRel read-modify-write per released reference",
+    "interleavings are enumerated per program by bounded depth-first search over the scheduling choices at atomic operations and non-atomic accesses",
+]
+
+
+def thread_check(prop, tier, seed):
+    from . import threads as T
+    from . import atomics as A
+    t0 = time.time()
+    q = tier == "quick"
+    progs = T.programs(tier, seed)
+    r = T.run("%s_dfs" % prop, progs, 40 if q else 600, free_runs=0, random_runs=20 if q else 100, seed=seed)
+    results = [r]
+    if not q:
+        results.append(T.run("%s_free" % prop, progs[:400], 1, free_runs=20))
+    table = T.ordering_table(r["trace"])
+    mc = A.check_model(prop, table, tier, seed)
+    return A.report(prop, results, mc, table, tier, seed, t0, ASSUME_THREADS)
+
+
 def run(prop, tier, seed):
+    if prop in ("C05", "C06"):
+        return thread_check(prop, tier, seed)
     if prop in ("C09", "C10", "C11", "C12"):
         return cursor_check(prop, tier, seed)
     if prop in H.HANDLE_PROPS:
